@@ -12,7 +12,17 @@ from gambit.seq import SequenceFile
 P = json.loads(os.environ.get('XH_PARAMS', '{}') or '{}')
 N = int(P.get('n', 3))
 KSPEC = KmerSpec(11, 'ATGAC')
-FILES = [SequenceFile(f'/nonexistent/g{i}.fa', 'fasta') for i in range(N)]
+# real files of increasing size (created at import, outside the analysis), so that anything that looks at the files on
+# disk - e.g. scheduling by size - sees a skew in which later files are larger
+_DIR = os.path.join(os.path.dirname(os.path.dirname(os.path.abspath(__file__))), 'scratch', 'c13_files')
+os.makedirs(_DIR, exist_ok=True)
+FILES = []
+for _i in range(N):
+    _p = os.path.join(_DIR, f'g{_i}.fa')
+    if not os.path.exists(_p) or os.path.getsize(_p) != 20 + 100 * _i:
+        with open(_p, 'w') as _f:
+            _f.write('>s\n' + 'A' * (16 + 100 * _i) + '\n')
+    FILES.append(SequenceFile(_p, 'fasta'))
 TAGS = [np.array([i + 1], dtype='u8') for i in range(N)]
 
 
